@@ -19,22 +19,25 @@ META = {
                  "sources; cos monotone on [0,pi] for the angle reading of the dot thresholds) + translator-regenerated "
                  "walk step / thresholds / comparison operators / short-cuts / index plumbing + kernel-checked "
                  "correspondence batches on generated surfaces",
-    "level_text": "Machine-checked, unbounded Coq theorems about an executable model of extract_border_cycle, "
-                  "extract_border_cycle_all, extract_boundary_of_surface and FeatureEdgeDetector.run whose expressions, "
-                  "thresholds, comparisons and index plumbing are regenerated from the source on every run. The surface "
-                  "connectivity enters as input tables satisfying a stated boolean well-formedness predicate (sorted "
-                  "neighbourhoods: first neighbour of a border vertex = its border predecessor); the bridge theorems "
-                  "(C15_tables_wf_every_manifold_surface, C15_cycle_every_manifold_surface) prove from C01's theorems that "
-                  "the tables of C01's model of SurfaceMesh satisfy it for EVERY oriented manifold polygon surface, and Coq "
-                  "also evaluates it on the real tables of every generated mesh. Model and code are tied by kernel-evaluated "
-                  "correspondence batches (fresh detectors, meshes already used by a run, one detector object re-used "
-                  "across runs and meshes); an independent brute-force oracle (face list, Fractions) searches for "
-                  "failing inputs.",
+    "level_text": "PROVED (unbounded Coq theorems about an executable model whose expressions, thresholds, comparisons and "
+                  "index plumbing are regenerated from the source on every run): extract_border_cycle / _all / "
+                  "extract_boundary_of_surface on tables satisfying wf_b (closed walk along border edges, each loop once, "
+                  "count = number of loops, polyline = border edges, index map a bijection, component labels); the flagged "
+                  "feature set and every derived container of FeatureEdgeDetector.run as functions of the tables it reads; "
+                  "the same classification read on the mesh GEOMETRY (normal direction computed from the vertices, unit "
+                  "normals compared without square roots, = angle between adjacent unit normals > 60 degrees / acos(4/5)); "
+                  "PropsC01.v: the tables of C01's model satisfy wf_b (and the detector's wfF) for EVERY oriented manifold "
+                  "surface, so no per-case hypothesis remains for the border theorems. TESTED (kernel-evaluated "
+                  "correspondence + independent brute-force oracle): that the implementation returns what the model "
+                  "returns on generated surfaces (fresh detectors, used meshes, one detector object re-used across runs), "
+                  "that its flagged set is the geometric classification up to a 1e-9 band, wf_b / wf_f on the real tables; "
+                  "corner orders are checked against the angle sums the implementation computed (angles are inputs).",
     "level_note": "Trusted: Coq kernel + vm_compute; the border/features translator; the correspondence harness "
                   "(generators, driver canonicalisation, tolerance band 1e-9 on dot products / angle sums that binary64 "
-                  "does not compute exactly); C01's model of surface.py/linear.py is the one C01 ties to the code (its "
-                  "translator and correspondence); face normals and corner angles are inputs (C07); Reals axioms of the "
-                  "stdlib only for the degree reading of the thresholds.",
+                  "does not compute exactly); C01's model of surface.py/linear.py is the one C01 ties to the code; the "
+                  "corner-angle sums (corner_angles: C07) are inputs of the corner-order theorems; the observed face "
+                  "normals are inputs of C15_features while C15_features_geometric / C15_unit_normals_angle are about the "
+                  "vertex coordinates; Reals axioms of the stdlib only for the angle reading of the thresholds.",
 }
 
 HEADER = """From Coq Require Import ZArith List Bool QArith.
@@ -139,8 +142,9 @@ def border_case_term(case, obs):
     return "(mkBC %s %s %s %s %s)" % (surf_term(t), coq_list([ints3(p) for p in t["coords"]]), cyc, al, bnd)
 
 
-def fcase_term(t, exact, pairs):
-    """tables of one mesh + the (options, observation) pairs of every run made on it"""
+def fcase_term(t, exact, pairs, geo=None):
+    """tables of one mesh + the (options, observation) pairs of every run made on it; geo = the mesh case when its
+    normals are the computed ones (integer coordinates + faces for the geometric classification)"""
     e2f = coq_list(["(%s, %s)" % (ozlit(a), ozlit(b)) for a, b in t["e2f"]])
     v2e = coq_list([coq_list([ozlit(e) for e in l]) for l in t["v2e"]])
     hard = "None" if t["hard"] is None else "(Some %s)" % zlist(t["hard"])
@@ -162,7 +166,11 @@ def fcase_term(t, exact, pairs):
         ds.append("(mkDO %s %s %s %s %s %s %s %s)" % (
             o, qlit(eps), qlit(EPS), zlist(d["fe"]), zlist(d["fv"]),
             plist(d["deg"]), coq_list(["(%s, %s)" % (zlit(v), zlist(l)) for v, l in d["local"]]), corners))
-    return "(mkFC %s %s %s %s)" % (m, normals or "[]", angle or "[]", coq_list(ds))
+    g = "None"
+    if geo is not None:
+        g = "(Some (%s, %s))" % (coq_list(["(%s, %s, %s)" % tuple(zlit(int(x)) for x in p) for p in geo["coords"]]),
+                                 coq_list([zlist(F) for F in geo["faces"]]))
+    return "(mkFC %s %s %s %s %s)" % (m, g, normals or "[]", angle or "[]", coq_list(ds))
 
 
 def feat_case_terms(case, obs):
@@ -175,9 +183,9 @@ def feat_case_terms(case, obs):
     if ses and so:
         for st, d in zip(ses["steps"], so["steps"]):
             (pairs if st["on"] == 0 else other).append((st, d))
-    out.append(fcase_term(obs["tables"], case["exact"], pairs))
+    out.append(fcase_term(obs["tables"], case["exact"], pairs, None if case["normals"] else case))
     if other:
-        out.append(fcase_term(so["other_tables"], False, other))
+        out.append(fcase_term(so["other_tables"], False, other, None if ses["other"].get("normals") else ses["other"]))
     return out
 
 
@@ -285,6 +293,33 @@ def shrink(case, key, budget=25.0):
     return cur
 
 
+def build_bridge(ctx):
+    """The theorems of PropsC01.v rest on C01's development: built and reported as obligations of their own, so that
+    a break in C01's cone cannot hide the verdict of the theorems of Props.v."""
+    import re
+    path = os.path.join(core.TH, "C15", "PropsC01.v")
+    names = core.props_theorems(path)
+    ok, log = ctx.make(["theories/C15/PropsC01.vo"], clean=(ctx.tier == "thorough"))
+    kind = "theorem (rests on C01's cone)"
+    if not ok:
+        m = re.search(r'File "\./?(theories/[^"]+)", line (\d+)', log)
+        where = "%s:%s" % (m.group(1), m.group(2)) if m else "?"
+        ctx.log("bridge to C01 does not build (%s)\n%s" % (where, core.tail(log, 12)))
+        for n in names:
+            ctx.obligation(n, kind, False, "build failed at " + where)
+        return
+    ax = ctx.print_assumptions("MV.C15.PropsC01", names)
+    for n in names:
+        a = ax.get(n)
+        if a is None:
+            ctx.obligation(n, kind, False, "Print Assumptions produced no output")
+            continue
+        bad = [x for x in a if x.split(" ")[0] not in core.ALLOWED_AXIOMS and not x.startswith(core.PRIMITIVE_PREFIXES)]
+        ctx.obligation(n, kind, not bad, ("closed under the global context" if not a else "axioms: " + "; ".join(a))
+                       + (" | NOT ALLOWED: " + "; ".join(bad) if bad else ""))
+    ctx.extra.setdefault("statement_hashes", {}).update(core.statement_hashes(path))
+
+
 # ---------------------------------------------------------------------- the check
 def run(ctx):
     quick = ctx.tier == "quick"
@@ -305,6 +340,7 @@ def run(ctx):
         "mesh, options changed between runs) must give after each run the containers of the mesh it just ran on"]
     ctx.regen(sys.modules[__name__])
     b = ctx.build_props(extra_targets=["theories/C15/Run.vo"])
+    build_bridge(ctx)
     ctx.hygiene(["Lib", "C15", "C01"])
 
     corpus = []
@@ -342,24 +378,31 @@ def run(ctx):
     for idx, (c, o) in enumerate(zip(cases, obs)):
         for key, msg in O.check_case(c, o):
             failures.append((idx, key, msg))
+    unknown = [f for f in failures if not ctx.known(f[1])]
     ctx.obligation("oracle: every observation of the implementation satisfies the property restated by brute force",
-                   "oracle-on-implementation", True, "%d failing observations" % len(failures))
+                   "oracle-on-implementation", not unknown,
+                   "%d failing observations (%d of listed known classes)" % (len(failures), len(failures) - len(unknown)))
 
     # 2. kernel-checked correspondence
     bad_b = bad_f = []
     if b["model_ok"]:
         good = [i for i, o in enumerate(obs) if "crash" not in o]
         bterms, fterms, fidx = [], [], []
+        dropped = len(cases) - len(good)
         for i in good:
             bterms.append(border_case_term(cases[i], obs[i]))
             try:
                 for ft in feat_case_terms(cases[i], obs[i]):
                     fterms.append(ft)
                     fidx.append(i)
-            except ValueError:
-                pass
+            except ValueError as ex:
+                dropped += 1
+                ctx.log("case %d not encodable for the correspondence: %s" % (i, ex))
         bad_b = ctx.run_cases("border", HEADER, bterms, "check_border", case_type="bcase", shard=max(20, len(bterms) // 16 + 1))
         bad_f = ctx.run_cases("features", HEADER, fterms, "check_feat", case_type="fcase", shard=max(20, len(fterms) // 16 + 1))
+        ctx.obligation("harness: cases dropped before the correspondence (driver crash / unencodable) stay below 2%% and "
+                       "at least one case was evaluated", "harness", len(cases) > 0 and dropped * 50 <= len(cases),
+                       "%d of %d dropped" % (dropped, len(cases)))
         bad_b = None if bad_b is None else [good[i] for i in bad_b]
         bad_f = None if bad_f is None else [fidx[i] for i in bad_f]
     else:
